@@ -87,7 +87,10 @@ SliceParts(t, p) ==
        THEN LET s0 == SpaceEnd(t, c2 + 1)  s1 == DigitsEnd(t, SignEnd(t, s0)) IN
             [ok |-> TRUE, start |-> SubSeq(t, p, a1 - 1), stop |-> SubSeq(t, b0, b1 - 1), step |-> SubSeq(t, s0, s1 - 1), end |-> s1]
        ELSE [ok |-> TRUE, start |-> SubSeq(t, p, a1 - 1), stop |-> SubSeq(t, b0, b1 - 1), step |-> <<>>, end |-> c2]
-WordAt(t, p, w) == HasAt(t, p, w) /\ Boundary(t, p + Len(w))
+\* the end of a keyword: a word boundary that is not followed by a character from U+0080 up (every such character may
+\* continue a name, word character or not)
+KeywordEnd(t, e) == e > Len(t) \/ (t[e] < 128 /\ ~IsWord(t[e]))
+WordAt(t, p, w) == HasAt(t, p, w) /\ KeywordEnd(t, p + Len(w))
 \* a keyword whose first letter may be a capital
 CapWordAt(t, p, w) == WordAt(t, p, w) \/ WordAt(t, p, <<w[1] - 32>> \o Tail(w))
 
